@@ -49,6 +49,13 @@ func init() {
 				}
 				cs = append(cs, core.MkCase("C12", kind, i, seed, c12Params{Sets: per, MaxN: maxN}))
 			}
+			nl := 6
+			if tier == "thorough" {
+				nl = 40
+			}
+			for i := 0; i < nl; i++ {
+				cs = append(cs, core.MkCase("C12", "long", i, seed, c12Params{}))
+			}
 			{
 				for i := range c12Probes {
 					cs = append(cs, core.MkCase("C12", "probe", i, seed, c12Params{Probe: i}))
@@ -61,6 +68,7 @@ func init() {
 			"random":      func(c *core.Case, o *core.Outcome) { c12Run(c, o, api.RandomDistribution) },
 			"passthrough": c12Pass,
 			"probe":       c12Probe,
+			"long":        c12Long,
 		},
 		Floors: map[string]int64{"sets_nontrivial": 500, "cycles": 3000},
 	})
@@ -311,4 +319,54 @@ func c12Probe(c *core.Case, o *core.Outcome) {
 	}
 	o.Sig("probe:N=%d:rate=%d", pr.N, pr.Rate)
 	o.Sample = map[string]any{"probe_N": pr.N, "probe_rate": pr.Rate, "verdict": o.Verdict}
+}
+
+// c12Long runs one small-N set for very many consecutive cycles (1.5e7 sub-ticks): state that
+// leaks from one cycle into the next only shows after millions of cycles.
+func c12Long(c *core.Case, o *core.Outcome) {
+	r := c.Rng("long")
+	n := []int{3, 7, 9, 11, 13, 1200, 6, 30}[r.IntN(8)]
+	dist := api.RegularDistribution
+	if r.IntN(4) == 0 {
+		dist = api.RandomDistribution
+	}
+	rates := []int{1, 1 + r.IntN(n), n + 1, 2}
+	calls := 0
+	rateFn := func(time.Time) int { v := rates[calls%len(rates)]; calls++; return v }
+	rr := core.Rng(c.Seed, c.ID, "rand")
+	_, fn, err := api.NewDistribution(dist, time.Duration(n)*100*time.Millisecond, rateFn, func(k int) int { return rr.IntN(k) })
+	if err != nil {
+		o.Inconc("NewDistribution: %v", err)
+		return
+	}
+	desc := fmt.Sprintf("%s N=%d rates=%v long-run", dist, n, rates)
+	now := time.Unix(1_700_000_000, 0)
+	total := 15_000_000
+	for cy := 0; cy*n < total; cy++ {
+		sum, mn, mx := 0, math.MaxInt, math.MinInt
+		for k := 0; k < n; k++ {
+			v := fn(now)
+			if v < 0 {
+				o.Violate("long-negative:"+desc, "negative value at cycle %d (%s)", cy, desc)
+				return
+			}
+			sum += v
+			mn = min(mn, v)
+			mx = max(mx, v)
+		}
+		want := rates[cy%len(rates)]
+		if sum != want || calls != cy+1 {
+			o.Violate(fmt.Sprintf("long-sum:%s N=%d", dist, n), "cycle %d of a long run: sub-tick values sum to %d, the underlying rate produced %d (evaluated %d times) (%s)", cy, sum, want, calls, desc)
+			return
+		}
+		if dist == api.RegularDistribution && mx-mn > 1 {
+			o.Violate(fmt.Sprintf("long-even:N=%d", n), "cycle %d: uneven regular distribution min %d max %d (%s)", cy, mn, mx, desc)
+			return
+		}
+	}
+	o.Events = int64(total)
+	o.AddObs("cycles", int64(total/n))
+	o.AddObs("long_run_subticks", int64(total))
+	o.Sig("long:%s:N=%d", dist, n)
+	o.Sample = map[string]any{"set": desc, "sub_ticks": total}
 }
